@@ -19,9 +19,9 @@ func init() {
 		ID:    "C18",
 		Title: "Diagnostics never disclose credentials",
 		Level: "exploration",
-		Rule: "self-composition: for every CONNECT shape (every presence subset of the 12 non-credential top-level fields x will in {absent, minimal, full}; API-built and decoded from its own frame) and every credential length in {1,2,9} (65535 on the bases), the packet is instantiated with every combination of user-name content (7 kinds) and password content (8 kinds) of that length: all-a, all-b, the client id, the literal stars, a format-verb string, the will topic, a user-property value, bytes 00/ff. " +
-			"Dump output and String() must be identical for all 56 instances, i.e. for all 56x55 ordered pairs. Nothing else is required (dependence on emptiness and length is allowed). distinct_nontrivial = distinct (shape, length, content pair) instances rendered.",
-		Assumptions: []string{"only Dump and String are in scope (not %#v of the struct)", "credential contents come from 8 leak-provoking kinds; the renderer is expected to never look at content"},
+		Rule: "self-composition: for every CONNECT shape (every presence subset of the 12 non-credential top-level fields x will in {absent, minimal, full}; API-built and decoded from its own frame) and every credential length in {1,2,9} (65535 on the bases), the packet is instantiated with every combination of user-name content (9 kinds) and password content (10 kinds) of that length: all-a, all-b, the client id, the literal stars, a format-verb string, the will topic, a user-property value, two-byte runes, three-byte runes (same byte length, fewer characters), bytes 00/ff. " +
+			"Dump output and String() must be identical for all 90 instances, i.e. for all 90x89 ordered pairs. Nothing else is required (dependence on emptiness and length is allowed). distinct_nontrivial = distinct (shape, length, content pair) instances rendered.",
+		Assumptions: []string{"only Dump and String are in scope (not %#v of the struct)", "credential contents come from 10 leak-provoking kinds; the renderer is expected to never look at content"},
 		Run:         runC18,
 		Replay:      replayC18,
 	})
@@ -44,6 +44,26 @@ func credContent(kind int, n int) []byte {
 		pat = []byte("Ta/#a") // the will topic
 	case 6:
 		pat = []byte("v") // a user property value
+	case 7:
+		// two-byte runes: same byte length, half the characters
+		out := make([]byte, 0, n)
+		for len(out)+2 <= n {
+			out = append(out, 0xc3, 0xa9)
+		}
+		for len(out) < n {
+			out = append(out, 'e')
+		}
+		return out
+	case 8:
+		// three-byte runes
+		out := make([]byte, 0, n)
+		for len(out)+3 <= n {
+			out = append(out, 0xe2, 0x82, 0xac)
+		}
+		for len(out) < n {
+			out = append(out, 'E')
+		}
+		return out
 	default:
 		pat = []byte{0x00, 0xff}
 	}
@@ -90,8 +110,8 @@ func c18Exec(t byte, vec gen.Vec, n int, wire bool) (*core.Finding, int) {
 		return nil, 0
 	}
 	count := 0
-	for uk := 0; uk < 7; uk++ {
-		for pk := 0; pk < 8; pk++ {
+	for uk := 0; uk < 9; uk++ {
+		for pk := 0; pk < 10; pk++ {
 			out, problem := c18Render(base, n, uk, pk, wire)
 			if problem != "" {
 				continue
